@@ -927,7 +927,7 @@ impl platform::Platform for Elf {
             placement: if output_kind == OutputKind::SharedObject {
                 SymbolPlacement::SectionStart(output_section_id::TDATA)
             } else {
-                SymbolPlacement::SectionEnd(output_section_id::TBSS)
+                SymbolPlacement::TlsSegmentEnd
             },
             name: b"_TLS_MODULE_BASE_",
             symbol: elf_symbol,
